@@ -44,6 +44,8 @@ TOL = 1e-10
 
 
 # ---- exact linear algebra for the certificates ------------------------------------------------------
+MAX_EXPANSION_ENTRIES = 2.5e7    # (Nvstars, Nvstars, Nclasses) float arrays: 200 MB each
+
 def nullspace_int(rows, d=3):
     """integer basis of {v : rows . v = 0} (Fractions, Gauss-Jordan), and the pivot rows/cols"""
     M = [[Fraction(x) for x in r] for r in rows]
@@ -184,9 +186,11 @@ def history_tier(ck, violation, label, crys, chem, sl, jn, cut, ops, max_states,
     def queries(S_, V_):
         """everything a calculator asks of a vector-star object: expansions for the object's own omega1/omega2 networks"""
         out = {}
+        if V_.Nvstars ** 2 * max(S_.Nstates, 1) > 4 * MAX_EXPANSION_ENTRIES: return out
         gf, gfs = V_.GFexpansion()
         out["GFexpansion"] = gf; out["GFstates"] = np.array([sc.ps_of(x)[:2] + sc.ps_of(x)[2] for x in gfs.states])
         for nm, fn, om2 in (("om1", S_.jumpnetwork_omega1, False), ("om2", S_.jumpnetwork_omega2, True)):
+            if V_.Nvstars ** 2 * max(len(fn()[0]), 1) > MAX_EXPANSION_ENTRIES: continue
             r = fn()
             if not r: continue
             jn_, jt_, sp_ = r
@@ -253,7 +257,9 @@ def history_tier(ck, violation, label, crys, chem, sl, jn, cut, ops, max_states,
                 kind="history:%dD-starset" % crys.dim,
                 sample={"tier": "history", "crystal": label, "history": seq} if stats["regenerations"] < 8 else None)
     # (b) the calculator: VacancyMediated(..., 1) then generate(2) then generate(1)  (kinetic range = Nthermo + 1)
-    if fresh_for(3)[0].Nstates <= vm_max_states:
+    S3_, V3_ = fresh_for(3)
+    if S3_.Nstates <= vm_max_states and V3_ is not None and \
+            V3_.Nvstars ** 2 * max(len(S3_.jumpnetwork_omega1()[0]), 1) <= MAX_EXPANSION_ENTRIES:
         info = dict(info0, route="VacancyMediated.generate", history=[1, 2, 1])
         try:
             d = OnsagerCalc.VacancyMediated(crys, chem, sl, jn, 1)
@@ -261,7 +267,7 @@ def history_tier(ck, violation, label, crys, chem, sl, jn, cut, ops, max_states,
                 d.generate(Nth)
                 judge(d.vkinetic, d.kinetic, Nth + 1, dict(info, step=k, Nthermo=Nth), "VacancyMediated.generate(%d)" % Nth)
                 Sf, Vf = fresh_for(Nth + 1)
-                if Vf is not None and same_vset(d.vkinetic, d.kinetic, Vf, Sf) == []:
+                if Vf is not None and Vf.Nvstars ** 2 * Sf.Nstates <= 4 * MAX_EXPANSION_ENTRIES and same_vset(d.vkinetic, d.kinetic, Vf, Sf) == []:
                     gf = Vf.GFexpansion()[0]
                     if d.GFexpansion.shape != gf.shape or np.abs(d.GFexpansion - gf).max(initial=0.) > 1e-12:
                         violation("history-gfexpansion", "GFexpansion after VacancyMediated.generate(%d) differs from a fresh one" % Nth, info)
@@ -474,6 +480,9 @@ def expansions(ck, crys, chem, S, V, Phi, sts, pos, jumps, ops, nsites, N, nr, e
     def cart(a, b, R):
         return np.dot(latt, np.array(R[:dim]) + u[b] - u[a])
 
+    # GFexpansion has shape (Nvstars, Nvstars, N_GFstars) with N_GFstars of the order of the number of states: bound the memory
+    if nv * nv * max(S.Nstates, 1) > 4 * MAX_EXPANSION_ENTRIES: return bad
+
     # ---- Green function: G[x,y] = g(class of (vac x -> vac y)) when the solute site agrees
     from onsager import crystalStars
     GFexp, GFS = V.GFexpansion()
@@ -525,6 +534,9 @@ def expansions(ck, crys, chem, S, V, Phi, sts, pos, jumps, ops, nsites, N, nr, e
     # ---- jump networks of the implementation as the given input; transitions enumerated by brute force
     j1, t1, sp1 = S.jumpnetwork_omega1()
     j2, t2, sp2 = S.jumpnetwork_omega2()
+    # the library's expansion arrays have shape (Nvstars, Nvstars, Nclasses): bound the memory of a case (a (714, 714, 1482) case
+    # needs 5.6 GiB per array and got a thorough run OOM-killed); larger cases keep the structural checks above only
+    if V.Nvstars ** 2 * max(len(j1), len(j2), 1) > MAX_EXPANSION_ENTRIES: return bad
     v1, v2, missing = c26.brute(sts, jumps, None)
     ntypes = len(S.jumpnetwork_index)
     for (name, jn_, jt_, valid, om2) in (("om1", j1, t1, v1, False), ("om2", j2, t2, v2, True)):
